@@ -94,6 +94,12 @@ def run_one(m, tier, tests):
             out["results"][cid] = {"exit": r.returncode, "lines": lines[:6]}
         out["caught"] = any(v["exit"] == 1 for v in out["results"].values())
         out["status"] = "caught" if out["caught"] else "MISSED"
+        if m.get("neutralised_by") and not out["caught"]:
+            # a later "fix:" commit in /repo made this change harmless: it must then really be harmless
+            # (its own demonstration passes) and the check must stay silent on it
+            ok = out.get("demo_exit_with_change") == 0 and all(v["exit"] == 0 for v in out["results"].values())
+            out["status"] = "neutralised" if ok else "MISSED"
+            out["neutralised_by"] = m["neutralised_by"]
     except Exception as e:
         out["status"] = f"error {type(e).__name__}: {e}"
     finally:
@@ -124,7 +130,7 @@ def main():
             if a.wave is not None and meta.get("wave") != a.wave:
                 continue
             demo = os.path.join(sd, name, "demo.py")
-            muts.append({"id": name, "property": meta["property"], "patch": os.path.join(sd, name, "patch.diff"), "checks": meta.get("checks"), "tier": meta.get("tier_needed", a.tier), "demo": demo if os.path.exists(demo) else None, "base": meta.get("base_commit")})
+            muts.append({"id": name, "property": meta["property"], "patch": os.path.join(sd, name, "patch.diff"), "checks": meta.get("checks"), "tier": meta.get("tier_needed", a.tier), "demo": demo if os.path.exists(demo) else None, "base": meta.get("base_commit"), "neutralised_by": meta.get("neutralised_by")})
     else:
         muts = json.load(open(os.path.join(ROOT, "selftest", "mutants.json")))
     if a.only:
@@ -148,8 +154,9 @@ def main():
             sys.stdout.flush()
     if a.out:
         json.dump(res, open(a.out, "w"), indent=1)
-    missed = [r["id"] for r in res if r["status"] != "caught"]
-    print(f"{len(res) - len(missed)}/{len(res)} caught; not caught: {missed}")
+    missed = [r["id"] for r in res if r["status"] not in ("caught", "neutralised")]
+    neut = [r["id"] for r in res if r["status"] == "neutralised"]
+    print(f"{len(res) - len(missed) - len(neut)}/{len(res) - len(neut)} caught; not caught: {missed}; neutralised by a later fix (harmless now, check silent): {neut}")
 
 
 if __name__ == "__main__":
